@@ -78,6 +78,23 @@ Theorem C17_fresh_client : forall st, st_wf st -> s_recents st = [] ->
 Proof. exact ginv_fresh. Qed.
 Print Assumptions C17_fresh_client.
 
+(** movement of the covered window's lower end; coverage is inherited by the next header unless the
+    limit floor(N/2)+1 grows by more than one at that step *)
+Theorem C17_window_lower_end : forall g now h,
+  match update_client (g_st g) now h with
+  | Some st' => g_st (gstep g (now, h)) = st' /                g_lo (gstep g (now, h)) = N.max (g_lo g) (h_num h + 1 - seal_limit st')
+  | None => gstep g (now, h) = g
+  end.
+Proof. exact g_lo_step. Qed.
+Print Assumptions C17_window_lower_end.
+
+Theorem C17_window_cover_inherited : forall g now h st', update_client (g_st g) now h = Some st' ->
+  g_lo g + seal_limit (g_st g) <= h_num h + 1 ->
+  seal_limit st' <= seal_limit (g_st g) + 1 ->
+  g_lo (gstep g (now, h)) + seal_limit st' <= (h_num h + 1) + 1.
+Proof. exact window_cover_step. Qed.
+Print Assumptions C17_window_cover_inherited.
+
 (** under the invariant the code's rule on stored entries is "sealed none of the preceding floor(N/2)
     blocks", provided number >= floor(N/2)+1 and the store covers that window *)
 Theorem C17_recent_rule_history : forall g num s,
